@@ -469,7 +469,11 @@ func rawLengthRule(p *core.Program, r *core.Result, fn *ssa.Function, minLen, ma
 						op = token.EQL
 					}
 				}
-				expr := fmt.Sprintf("reject when len(raw) %s %d", op, k)
+				what := "raw"
+				if isNormLen(bo.X) {
+					what = "normalised"
+				}
+				expr := fmt.Sprintf("reject when len(%s) %s %d", what, op, k)
 				switch op {
 				case token.LSS:
 					if int(k) <= minLen {
